@@ -691,7 +691,33 @@ pub fn gen_c06<W: Write>(out: &mut W, thorough: bool, seed: u64) {
         writeln!(out, "caleq {} {}", next + 4, hn).unwrap();
         writeln!(out, "caleq {} {}", hn, next + 4).unwrap();
         writeln!(out, "caleq {} {}", 100 + i, next + 4).unwrap();
-        next += 5;
+        // behaviourally EQUAL but structurally different: the same table plus immaterial holidays (a day the
+        // week mask excludes anyway, a day beyond 2200) - on its own and as a one-member union, both ways round
+        let (mask0, mut hols0) = table_of(NAMES[i]);
+        let mut extra = Vec::new();
+        if let Some(wd) = mask0.bytes().position(|b| b == b'1') {
+            // day 4 (1970-01-05) is a Monday: a date falling on the first masked weekday
+            let base = r.range(100, HI / 7 - 100) * 7 + 4;
+            extra.push(base + wd as i64);
+        }
+        extra.push(HI + r.range(30, 3000));
+        hols0.extend(extra);
+        hols0.sort();
+        hols0.dedup();
+        write!(out, "cal {} {} {}", next + 5, mask0, hols0.len()).unwrap();
+        for h in &hols0 {
+            write!(out, " {}", h).unwrap();
+        }
+        writeln!(out).unwrap();
+        writeln!(out, "ucal {} 1 {} -", next + 6, next + 5).unwrap();
+        writeln!(out, "caleq {} {}", 100 + i, next + 6).unwrap();
+        writeln!(out, "caleq {} {}", next + 6, 100 + i).unwrap();
+        writeln!(out, "caleq {} {}", next + 5, next + 1).unwrap();
+        writeln!(out, "caleq {} {}", next + 1, next + 5).unwrap();
+        writeln!(out, "caleq {} {}", hn, next + 5).unwrap();
+        writeln!(out, "caleq {} {}", next + 5, hn).unwrap();
+        writeln!(out, "caleq {} {}", next + 6, next + 1).unwrap();
+        next += 7;
     }
 }
 
